@@ -1080,6 +1080,15 @@ func (in *inliner) expand(call *ast.CallExpr, fn *types.Func, recvExpr ast.Expr,
 	var bind []ast.Stmt  // receiver / parameter bindings, inside the block
 	var results []string // names of the result temporaries
 	declVar := func(name string, t types.Type, val ast.Expr) (ast.Stmt, bool) {
+		// when the bound expression already has exactly the wanted type (and is not a constant, whose recorded type is
+		// the converted one) a short declaration avoids spelling the type, which a local of the same name could shadow
+		if val != nil {
+			if vt := in.typeOf(val); vt != nil && types.Identical(vt, t) && !in.isConstExpr(val) {
+				if _, isTuple := vt.(*types.Tuple); !isTuple {
+					return &ast.AssignStmt{Lhs: []ast.Expr{ast.NewIdent(name)}, Tok: token.DEFINE, Rhs: []ast.Expr{val}}, true
+				}
+			}
+		}
 		te, ok := in.typeExpr(t)
 		if !ok {
 			return nil, false
@@ -1427,6 +1436,28 @@ func (in *inliner) expand(call *ast.CallExpr, fn *types.Func, recvExpr ast.Expr,
 	return append(pre, blk), results, true
 }
 
+// isConstExpr: the expression is a compile-time constant (or nil).
+func (in *inliner) isConstExpr(e ast.Expr) bool {
+	if tv, ok := in.info.Types[in.rootExpr(e)]; ok {
+		return tv.Value != nil || tv.IsNil()
+	}
+	switch x := ast.Unparen(e).(type) {
+	case *ast.BasicLit:
+		return true
+	case *ast.Ident:
+		if o := in.objOf(x); o != nil {
+			if _, isC := o.(*types.Const); isC {
+				return true
+			}
+			if _, isN := o.(*types.Nil); isN {
+				return true
+			}
+		}
+		return x.Name == "nil" || x.Name == "true" || x.Name == "false"
+	}
+	return false
+}
+
 func (in *inliner) rootSel(s *ast.SelectorExpr) *ast.SelectorExpr {
 	for {
 		o, ok := in.origSel[s]
@@ -1490,6 +1521,13 @@ func (in *inliner) typeExpr(t types.Type) (ast.Expr, bool) {
 			}
 			if x.Obj().Pkg() == in.pkg.Types && x.Obj().Parent() != in.pkg.Types.Scope() {
 				bad = true // function-local type
+			}
+			if x.Obj().Pkg() == in.pkg.Types && in.sitePos.IsValid() {
+				if sc := in.pkg.Types.Scope().Innermost(in.sitePos); sc != nil {
+					if _, found := sc.LookupParent(x.Obj().Name(), in.sitePos); found != nil && found != types.Object(x.Obj()) {
+						bad = true // the type's name is shadowed at the call site
+					}
+				}
 			}
 		case *types.Pointer:
 			walk(x.Elem(), depth+1)
@@ -1768,6 +1806,15 @@ func (in *inliner) expandLit(call *ast.CallExpr, lit *ast.FuncLit, stack []*type
 	var pre, outer, inner []ast.Stmt
 	var results []string
 	declVar := func(name string, t types.Type, val ast.Expr) (ast.Stmt, bool) {
+		// when the bound expression already has exactly the wanted type (and is not a constant, whose recorded type is
+		// the converted one) a short declaration avoids spelling the type, which a local of the same name could shadow
+		if val != nil {
+			if vt := in.typeOf(val); vt != nil && types.Identical(vt, t) && !in.isConstExpr(val) {
+				if _, isTuple := vt.(*types.Tuple); !isTuple {
+					return &ast.AssignStmt{Lhs: []ast.Expr{ast.NewIdent(name)}, Tok: token.DEFINE, Rhs: []ast.Expr{val}}, true
+				}
+			}
+		}
 		te, ok := in.typeExpr(t)
 		if !ok {
 			return nil, false
